@@ -554,12 +554,12 @@ func getAntiAffinityKeysValue(node *corev1.Node, daemonsetSpec *datadoghqv1alpha
 }
 
 func newReplicaSetFromInstance(daemonset *datadoghqv1alpha1.ExtendedDaemonSet) (*datadoghqv1alpha1.ExtendedDaemonSetReplicaSet, error) {
-	labels := map[string]string{
-		datadoghqv1alpha1.ExtendedDaemonSetNameLabelKey: daemonset.Name,
-	}
+	labels := map[string]string{}
 	for key, val := range daemonset.Labels {
 		labels[key] = val
 	}
+	// set last: a label of the same key on the ExtendedDaemonSet must not redirect the ReplicaSet to another owner
+	labels[datadoghqv1alpha1.ExtendedDaemonSetNameLabelKey] = daemonset.Name
 	rs := &datadoghqv1alpha1.ExtendedDaemonSetReplicaSet{
 		ObjectMeta: metav1.ObjectMeta{
 			GenerateName: daemonset.Name + "-",
